@@ -48,7 +48,7 @@ func init() {
 	}
 	u := map[int]string{1: "192.0.2.1", 2: "192.0.2.2", 3: "2001:db8:1::3", 4: "10.128.7.7", 5: "fd00:80::77", 6: "203.0.113.9",
 		7: "198.51.100.9", 8: "2001:db8:dead::8", 9: "192.0.2.66", 40: "192.0.2.5", 41: "10.128.7.5", 42: "203.0.113.5", 43: "198.51.100.5",
-		44: "2001:db8:beef::9", 45: "192.0.2.200", 46: "2001:db8:cafe::9"}
+		44: "2001:db8:beef::9", 45: "192.0.2.200", 46: "2001:db8:cafe::9", 47: "2001:db8:1::47", 48: "2001:db8:1::48"}
 	for i := 11; i <= 22; i++ {
 		u[i] = fmt.Sprintf("192.0.2.%d", 100+i)
 	}
